@@ -161,6 +161,7 @@ Fixpoint subcontract (T : ty) (vars : list (string * cvar)) (p : polarity) (sy :
               | Some b => Some (CRecord fcs (CTVar b) true, sy1)
               | None => None
               end
+          | RExcl excl => Some (CRecord fcs (CTVar (VExcludedOnly excl)) true, sy1)
           end
       | None => None
       end
@@ -176,3 +177,120 @@ Fixpoint subcontract (T : ty) (vars : list (string * cvar)) (p : polarity) (sy :
 (* Type::contract: empty environment, positive polarity, counter 0 *)
 Definition contract_of (T : ty) : option cexpr :=
   match subcontract T [] Pos 0 with Some (c, _) => Some c | None => None end.
+
+(* ------------------------------------------------------------------ Type::simplify
+
+   Model of Type::simplify / RecordRows::simplify / EnumRows::simplify (typ.rs), used by
+   Type::contract_static for the contract of a STATIC type annotation.
+
+   [svars] is SimplifyVars: [sv_ty] maps a type variable to [true] when it was introduced by an
+   elided forall (and is to be replaced by Dyn), to [false] when a nearer forall of the same name
+   shadows it; [sv_rr] maps a record-row variable to [Some excluded] when introduced by an elided
+   forall, to [None] when shadowed.  Both are persistent environments: insertion = cons, lookup =
+   first match.
+
+   The generated tail variable that RecordRows::simplify binds in [contract_env] to
+   `$forall_record_tail_excluded_only [excluded - fields]` is represented by the tail [RExcl]
+   (i.e. up to the name of the fresh variable).  The HashSet difference keeps, here, the order of
+   [excluded]; the order is not observable (std.array.elem). *)
+
+Record svars := mkSV { sv_ty : list (string * bool); sv_rr : list (string * option (list string)) }.
+
+Definition sv_empty : svars := mkSV [] [].
+
+Definition ty_elided (sv : svars) (x : string) : bool :=
+  match lookup x (sv_ty sv) with Some true => true | _ => false end.
+
+Definition rr_elided (sv : svars) (x : string) : option (list string) :=
+  match lookup x (sv_rr sv) with Some (Some e) => Some e | _ => None end.
+
+Definition mem_str (x : string) (l : list string) : bool := existsb (String.eqb x) l.
+
+(* excluded - fields *)
+Definition set_diff (a b : list string) : list string := filter (fun x => negb (mem_str x b)) a.
+
+Definition is_pos (p : polarity) : bool := match p with Pos => true | Neg => false end.
+
+(* the tail of RecordRows::simplify's do_simplify *)
+Definition simplify_rtail (sv : svars) (p : polarity) (fields : list string) (tail : rtail) : rtail :=
+  match tail with
+  | RClosed => if is_pos p then RDyn else RClosed
+  | RDyn => RDyn
+  | RExcl e => RExcl e
+  | RVar x =>
+      match rr_elided sv x, p with
+      | Some _, Pos => RDyn
+      | None, _ => RVar x
+      | Some excluded, Neg =>
+          let excluded' := set_diff excluded fields in
+          match excluded' with
+          | [] => RDyn
+          | _ => RExcl excluded'
+          end
+      end
+  end.
+
+(* peek_tail: can fields be elided given the tail? *)
+Definition can_elide (sv : svars) (tail : rtail) : bool :=
+  match tail with
+  | RVar x => match rr_elided sv x with Some _ => true | None => false end
+  | _ => true
+  end.
+
+Fixpoint simplify (T : ty) (sv : svars) (p : polarity) {struct T} : ty :=
+  match T with
+  | TArrow a b => TArrow (simplify a sv (flip p)) (simplify b sv p)
+  | TForall x k body =>
+      match k, p with
+      | KType, Pos =>
+          simplify body (mkSV ((x, true) :: sv_ty sv) ((x, None) :: sv_rr sv)) p
+      | KRecRows excluded, Pos =>
+          simplify body (mkSV ((x, false) :: sv_ty sv) ((x, Some excluded) :: sv_rr sv)) p
+      | _, _ =>
+          (* kept: its variable shadows an elided one of the same name *)
+          TForall x k (simplify body (mkSV ((x, false) :: sv_ty sv) ((x, None) :: sv_rr sv)) p)
+      end
+  | TVar x => if ty_elided sv x then TDyn else TVar x
+  | TNum | TStr | TBool => if is_pos p then TDyn else T
+  | TRec rows tail =>
+      let elide := can_elide sv tail in
+      let rows' :=
+        (fix go (rs : list (string * ty)) : list (string * ty) :=
+           match rs with
+           | [] => []
+           | (k, t) :: rs' =>
+               let t' := simplify t sv p in
+               if is_dyn t' && is_pos p && elide then go rs' else (k, t') :: go rs'
+           end) rows in
+      let tail' := simplify_rtail sv p (keys rows) tail in
+      match rows', tail', p with
+      | [], RDyn, Pos | [], RClosed, Pos => TDyn
+      | _, _, _ => TRec rows' tail'
+      end
+  | TEnum rows tail =>
+      let rows' :=
+        (fix go (rs : list (string * option ty)) : list (string * option ty) :=
+           match rs with
+           | [] => []
+           | (k, None) :: rs' => (k, None) :: go rs'
+           | (k, Some t) :: rs' => (k, Some (simplify t sv p)) :: go rs'
+           end) rows in
+      let elide :=
+        forallb (fun r : string * option ty =>
+                   match snd r with Some t' => is_dyn t' | None => true end) rows'
+        && match tail with EClosed => true | EVar _ => false end in
+      if elide && is_pos p then TDyn else TEnum rows' tail
+  | TDict fl t =>
+      let t' := simplify t sv p in
+      if is_dyn t' && is_pos p then TDyn else TDict fl t'
+  | TArr t =>
+      let t' := simplify t sv p in
+      if is_dyn t' && is_pos p then TDyn else TArr t'
+  | TDyn => TDyn
+  | TOpaque n => TOpaque n
+  end.
+
+(* Type::contract_static *)
+Definition static_type (T : ty) : ty := simplify T sv_empty Pos.
+
+Definition contract_static_of (T : ty) : option cexpr := contract_of (static_type T).
